@@ -273,11 +273,11 @@ def diff_history(a, b):
 
 
 # ------------------------------------------------------------------------------------------------ runner
-def run_traces(chk, cases, oracle, nontrivial, twin=False, label="trace"):
+def run_traces(chk, cases, oracle, nontrivial, twin=False, label="trace", shard=25):
     """Run cases on the implementation, replay them in Coq, apply the oracle; returns coverage pieces."""
     observations = [cc.run_case(c) for c in cases]
     lits = [cc.emit_case(c, o) for c, o in zip(cases, observations)]
-    bad, errors = chk.coq_mismatches(label, cc.IMPORTS, "check_case", cc.CASE_T, lits, shard=25)
+    bad, errors = chk.coq_mismatches(label, cc.IMPORTS, "check_case", cc.CASE_T, lits, shard=shard)
     stats = Counter()
     keys, nontriv = set(), set()
     for i, (c, o) in enumerate(zip(cases, observations)):
